@@ -60,6 +60,8 @@ def plan(tier, base_seed):
 def draw_case(ch):
     c = lattice.draw_settings(ch, "c")
     s = lattice.draw_settings(ch, "s")
+    lattice.fix_keyshares(c)
+    lattice.fix_keyshares(s)
     fl = FLAVS[ch.draw(len(FLAVS), "fl")]
     sc = {"cset": c, "sset": s}
     if fl in ("cert", "cert_cauth"):
